@@ -85,6 +85,42 @@ def observe(dec, pgn: int, payload: bytes) -> dict:
     return {"pgn": pgn, "p": list(payload), "ret": "msg", "id": msg.id}
 
 
+def observe_frames(dec, d: dict, payload: bytes, seq: list) -> dict | None:
+    from .. import fastpacket as fp
+    pgn = d["pgn"]
+    if d["fast"] == "single":
+        if len(payload) > 8:
+            return None
+        packets = [fp.ebyte_packet(pgn, 9, 255, 3, bytes(payload))]
+    elif d["fast"] == "fast" and len(payload) <= 223:
+        q = seq[0]
+        seq[0] = (q + 1) % 8
+        n, packets, i, pos = len(payload), [], 0, 0
+        while True:
+            cap_ = 6 if i == 0 else 7
+            packets.append(fp.ebyte_packet(pgn, 9, 255, 3, fp.can_data(q, i, n, list(payload[pos:pos + cap_]))))
+            pos += cap_
+            i += 1
+            if pos >= n:
+                break
+    else:
+        return None
+    msg = None
+    try:
+        for pk in packets:
+            msg = dec.decode_tcp(pk)
+    except Exception as e:                      # noqa: BLE001
+        ident = ""
+        for fr in traceback.extract_tb(e.__traceback__):
+            m = _FN.fullmatch(fr.name)
+            if m:
+                ident = m.group(2)
+        return {"pgn": pgn, "p": list(payload), "ret": "err", "id": ident}
+    if msg is None:
+        return {"pgn": pgn, "p": list(payload), "ret": "none", "id": ""}
+    return {"pgn": pgn, "p": list(payload), "ret": "msg", "id": msg.id}
+
+
 def model(chk: Check, tier: str, wd):
     r = run_tlc("MC_Select", "MC_Select.cfg", env={"DB_FILE": str(wd / "db.json")}, name="MC_Select", timeout=1800)
     for inv in r.violated:
@@ -108,6 +144,20 @@ def bind(chk: Check, tier: str, seed: int, shadowed: set | None = None):
     for d, payload, fill in vectors(db, rng, cap, fills):
         recs.append(observe(dec, d["pgn"], payload))
         meta.append(d["id"])
+    # the same vectors once more through the frame-level path of one long-lived decoder (EByte packets; fast-packet
+    # PGNs frame by frame under a running sequence counter): the selection must not depend on what the decoder has
+    # seen before - payloads that match no definition included
+    n_direct = len(recs)
+    decf = NMEA2000Decoder()
+    seq = [0]
+    for (d, payload, fill), direct in zip(vectors(db, random.Random(seed), cap, fills), list(recs)):
+        if fill > 1:
+            continue
+        o = observe_frames(decf, d, payload, seq)
+        if o is not None:
+            recs.append(o)
+            meta.append(d["id"])
+    chk.add(frame_level_records=len(recs) - n_direct)
     bad = validate("C08", recs, wd)
     selected = {r["id"] for r in recs if r["ret"] in ("msg", "err")}
     multi = {d["id"] for d in db["defs"] if sum(1 for x in db["defs"] if x["pgn"] == d["pgn"]) > 1}
